@@ -12,7 +12,7 @@ RULE = (
     "was raised by the data; state = (effective flags, kind, handled errors so far, record index)"
 )
 BOUNDS = {
-    "quick": "63 policies x 11 overrides x 7 error kinds x (no fault, 4 single positions, 6 pairs) via Config object; all 40 pairs of override tokens x 7 policies over {collect,fail,stop} x 7 kinds x 4 positions; the 63 policies x "
+    "quick": "63 policies x 11 overrides x 8 error kinds x (no fault, 4 single positions, 6 pairs) via Config object; all 40 pairs of override tokens x 7 policies over {collect,fail,stop} x 8 kinds x 4 positions; the 63 policies x "
     "5 kinds x 4 single positions again via config.ini",
     "thorough": "as quick plus all 2-flag override combinations over different flags x 63 policies, all 3-flag combinations x 7 policies, 5-record files via config.ini and 7-record files (1,2 faults) for every policy",
 }
@@ -37,6 +37,8 @@ KINDS = {
     # the erroring component is followed by a stop() that fires in the middle of record 1 (and by one more component): the error of that
     # line must still be handled (docs/functions/stop.md: components before a stop() take effect). Equivalent to a 2-record file whose
     # record 1 is not returned.
+    # the erroring component's tree holds an already evaluated EMPTY value (a whitespace-only cell read by a sibling argument)
+    "emptysib": ('@s = add(#2, length(#0))', ["abc", "2", "5"], ["   ", "2", "x"]),
     "midstop": ('@s = add(#2, 1) stop(#3 == "1") yes()', ["abc", "2", "5"], ["abc", "2", "x"]),
 }
 
